@@ -77,6 +77,35 @@ def closures_passed(b, t):
     return out
 
 
+def watermark_values(ctx, rule):
+    """rows_valid_end is the validity watermark of speculatively built rows: every writer must set it
+    to the current row count (num_rows(), or num_rows()+1 for the row just written). A value that
+    depends on the old watermark (max/min with itself) keeps rows valid that were built from an
+    overwritten predecessor."""
+    P = ctx.prog
+    n = 0
+    for b, bi, r in L.assignments_to(P, PS, "rows_valid_end"):
+        e = b.expr_rvalue(r)
+        n += 1
+
+        def is_num_rows(x):
+            return x[0] == "call" and x[1] == PS + "::num_rows"
+
+        ok = is_num_rows(e) or (e[0] == "bin" and e[1] in ("Add", "AddWithOverflow") and is_num_rows(e[2]) and e[3][0] == "const" and e[3][1] == 1)
+        # overflow-checked add: value is field 0 of the (result, overflow) pair
+        if not ok and e[0] == "place":
+            base = b.expr_place([e[1][0]])
+            ok = base[0] == "bin" and base[1] in ("Add", "AddWithOverflow") and is_num_rows(base[2]) and base[3][0] == "const" and base[3][1] == 1
+        if b.id == PS + "::new":
+            ok = ok or (e[0] == "const")
+        ctx.check(ok, rule, "rows_valid_end:value@" + b.id.rsplit("::", 1)[1],
+                  "rows_valid_end := num_rows() (+1 for the row just written)",
+                  "%s sets rows_valid_end to `%s`: the row re-use watermark must be reset to the current row count, otherwise rows "
+                  "built from an overwritten predecessor stay 'valid' and are re-used by the next trie branch" % (b.id, F.fmt_expr(e)),
+                  site=b.where(bi))
+    ctx.floor(rule, "assignments to rows_valid_end", n, 4)
+
+
 def run(ctx):
     P = ctx.prog
     started = {PS + "::trie_started_inner", "toktrie::toktree::Recognizer::trie_started"}
@@ -217,6 +246,7 @@ def run(ctx):
     exp = {PS + "::trie_started_inner", PS + "::trie_finished_inner", PS + "::just_push_row", PS + "::rollback"}
     ctx.check(writers == exp, "C11-R3", "rows_valid_end:writers", "rows_valid_end has exactly the 4 expected writers",
               "writers of rows_valid_end changed: unexpected %s missing %s" % (sorted(writers - exp), sorted(exp - writers)))
+    watermark_values(ctx, "C11-R3")
     # bias_cache writers
     bw = set()
     for b in P.bodies.values():
